@@ -326,7 +326,7 @@ func rewrite(rel string, src []byte, c *census) ([]byte, bool, error) {
 						continue
 					}
 					u, _ := recvOf(cc.Comm)
-					add(off(cc.Colon)+1, off(cc.Colon)+1, fmt.Sprintf(" verifrt.AfterSelectRecv(%v, %s); ", hasDef, text(u.X)))
+					add(off(cc.Colon)+1, off(cc.Colon)+1, fmt.Sprintf(" verifrt.AfterSelectRecv(%v, %s, %s); ", hasDef, text(u.X), strings.Join(chans, ", ")))
 					handled[u] = true
 				}
 				usedRT = true
